@@ -82,6 +82,9 @@ func verifC02(maxChunks int, sizes []int) {
 	verifAssert("C02.client-fin-after-target-eof", verifIndexStr(glog, "target:ReadEnd") >= 0 && verifIndexStr(glog, "target:ReadEnd") < verifIndexStr(glog, "client:CloseWrite"))
 	verifAssert("C02.closed-last", conn.closed == 1 && conn.events[len(conn.events)-1] == "Close")
 	verifAssert("C02.target-closed", target.closed >= 1)
+	// nothing limits how long the relay may last: no deadline is left on the client connection
+	// once the handshake is over (the handler's context has none)
+	verifAssert("C02.no-deadline-left-on-relay", len(conn.deadlines) == 2 && conn.deadlines[1].IsZero() && (len(conn.connDeadlines) == 0 || conn.connDeadlines[len(conn.connDeadlines)-1].IsZero()))
 	// C08: the response starts with a server-marked salt for the matched key
 	if len(back) > 0 {
 		ss := key.SaltSize()
@@ -125,7 +128,14 @@ func VH_C15_outcomes() {
 	reply := verifBytes("t", 2)
 	dialer := &verifDialer{conn: target}
 	want := "OK"
-	switch verifChoice("outcome", 7) {
+	switch verifChoice("outcome", 9) {
+	case 7:
+		// the dial was abandoned because the handler's context was cancelled (server stopping)
+		dialer.dialErr = &net.OpError{Op: "dial", Net: "tcp", Err: verifCtxCanceled}
+		want = "ERR_CONNECT"
+	case 8:
+		dialer.dialErr = &net.OpError{Op: "dial", Net: "tcp", Err: verifCtxDeadline}
+		want = "ERR_CONNECT"
 	case 0:
 		target.reads = []verifSRead{{data: reply}}
 	case 1:
